@@ -4,7 +4,7 @@ from __future__ import annotations
 import json
 import random
 
-from lib import astcodec, doccases, docprops, parsecorr, render
+from lib import astcodec, corefrag, doccases, docprops, parsecorr, render
 from lib.model import enc_str, run_driver
 
 LEVEL = "proof"
@@ -14,6 +14,8 @@ PFX = "C03-"
 
 def run(ctx):
     hm = doccases.have_model(ctx)
+    # core fragment (theorems C03_strict_emit_core / text round trip): deep nesting; strict profile of every canonical text
+    corefrag.run(ctx, ctx.scale(150, 3000), hm)
     ctx.extra["rule"] = ("for every content-model document that falsifies no wf clause: the canonical spelling, the all-alias "
                          "corner and 8 (thorough 48) random lenient spellings with every freedom toggled independently at every "
                          "site; all must canonicalise to the same bytes = emit(content). Every canonical output (also of documents "
